@@ -104,23 +104,13 @@ def s1_formula(ctx):
     ws = [w for w in ws if w.fn.cls is not None and w.fn.cls.name == CN]
     ctx.require(all(w.fn.name == '__init__' for w in ws) and ws, 'C10.S2', 'the buffer is set only by the constructor, through its validator', ws[0].where if ws else None,
                 key='C10.S2|buffer-writer')
-    ps = summarise(ctx, CN + '.__init__', policy=no_inline)
-    for p in normal(ps):
-        w = heap_writes(p, 'cash_buffer_percentage')
-        ok = len(w) == 1 and w[0].value[0] == 'call' and w[0].value[1] == ('fn', CN + '._check_set_cash_buffer') and w[0].value[2][1:] == (V('cash_buffer_percentage'),)
-        ctx.require(ok, 'C10.S2', 'the buffer stored is the validated one', w[0].site if w else None, key='C10.S2|buffer-validated')
 
 
 def s2_guards(ctx):
     # buffer in [0, 1]
-    fn = ctx.fn(CN + '._check_set_cash_buffer')
-    for val_, valid in ((-0.5, False), (0, True), (0.5, True), (1, True), (1.5, False)):
-        v = Valuation(nums={'cash_buffer_percentage': val_})
-        ps = summarise(ctx, fn, policy=default_policy, oracle=v)
-        outs = {('raise:' + p.state.exc[1]) if p.outcome == 'raise' else ('ok:' + fmt(p.value)) for p in ps}
-        want = {'ok:cash_buffer_percentage'} if valid else {'raise:ValueError'}
-        ctx.require(outs == want, 'C10.S2', 'a cash buffer of %s is %s' % (val_, 'accepted unchanged' if valid else 'rejected with ValueError'), fn.site(),
-                    'outcomes %s%s' % (sorted(outs), (' (depends on %s)' % sorted(set(v.unknown))[:2]) if v.unknown else ''), key='C10.S2|buffer|%s' % val_)
+    from .sizers import ctor_guard_table
+    ctor_guard_table(ctx, 'C10.S2', CN, 'cash_buffer_percentage', 'cash_buffer_percentage', ((-0.5, False), (0, True), (0.5, True), (1, True), (1.5, False)),
+                     'a cash buffer', 'C10.S2|buffer')
     # negative weights: the test dominates every return of _normalise_weights
     qn = CN + '._normalise_weights'
     fn = ctx.fn(qn)
